@@ -630,6 +630,21 @@ func bridgeCheck(run *core.Run, prop string) []ledgerRun {
 	}
 	run.States += res.Distinct
 	run.Transitions += res.Generated
+	// for ALL amounts, times and nonces: the invariants are inductive (Apalache, BridgeInd.tla = Bridge.tla with unbounded values)
+	for _, c := range []struct {
+		what, want string
+		args       []string
+	}{
+		{"base case", "ok", []string{"--cinit=CInitOK", "--init=Init", "--inv=IndInv", "--length=0"}},
+		{"inductive step", "ok", []string{"--cinit=CInitOK", "--init=IndInit", "--inv=IndInv", "--length=1"}},
+		{"negative control (Redeem does not look at the request's state)", "violated", []string{"--cinit=CInitBroken", "--init=IndInit", "--inv=IndInv", "--length=1"}},
+	} {
+		got, err := core.RunApalache("BridgeInd", 10*time.Minute, c.args...)
+		if err != nil || got != c.want {
+			core.Fatal("BridgeInd %s: %s, expected %s (%v)", c.what, got, c.want, err)
+		}
+	}
+	run.Set("bridge_inductive_invariant", "Apalache: IndInv (TypeOK, NotTwice, PaidImpliesRedeemed, UnpaidUnlessRedeemed, Backed, RegisteredInThePast) holds initially and is preserved by every action for all natural amounts, times and nonces (two request ids); refuted when Redeem does not look at the request's state")
 	run.Set("bridge_mc", fmt.Sprintf("Bridge.tla, request ids %s, four kinds of pair: %d distinct states, %d transitions, depth %d", ids, res.Distinct, res.Generated, res.Depth))
 	// behaviours: a seeded sample of the edge cover (one request id), every transition whose last step moves funds, and random walks with two ids
 	budget := 220
